@@ -44,7 +44,7 @@ ASSUMPTIONS = [
 ]
 REAL = ["all Mem* and SQLite* components", "BaseOrchestrator / BaseTrigger / BaseStateBackend / BaseClientDataStore shared logic", "SQLite engine"]
 STUBBED = ["clock", "uuid4", "history writer threads run inline"]
-PROBES = ["orchestrator_ops", "broker_ops", "state_ops", "trigger_ops", "client_data_ops", "purges", "auto_purge", "recovery_scans", "illegal_status_requests"]
+PROBES = ["orchestrator_ops", "broker_ops", "state_ops", "trigger_ops", "client_data_ops", "purges", "auto_purge", "recovery_scans", "illegal_status_requests", "two_key_argument_query"]
 
 import re
 
@@ -61,7 +61,7 @@ def lc() -> Lifecycle:
 
 def plan(tier: str) -> list[dict]:
     q = tier == "quick"
-    return [{"stratum": "sequences", "runs": 96 if q else 5000, "params": {"max_ops": 150 if q else 300}, "chunk": 6 if q else 125}]
+    return [{"stratum": "sequences", "runs": 160 if q else 5000, "params": {"max_ops": 150 if q else 300}, "chunk": 6 if q else 125}]
 
 
 def warmup() -> None:
@@ -91,7 +91,9 @@ def run(seed: int, params: dict, replay: dict | None = None) -> dict:
         stacks = list(env.apps)
         from pynenc.trigger.trigger_builder import on_cron
 
-        tasks = {st: [_apps.register(app, simtasks.keyed2, triggers=on_event("evt")), _apps.register(app, simtasks.add, triggers=[on_cron("*/5 * * * *"), on_cron("0 * * * *")])] for st, app in env.apps.items()}
+        from pynenc.conf.config_task import ConcurrencyControlType as CC
+
+        tasks = {st: [_apps.register(app, simtasks.keyed2, triggers=on_event("evt"), running_concurrency=CC.KEYS, key_arguments=("a", "b")), _apps.register(app, simtasks.add, triggers=[on_cron("*/5 * * * *"), on_cron("0 * * * *")])] for st, app in env.apps.items()}
         CRON_IDS = ["cron_*/5 * * * *", "cron_0 * * * *"]
         for app in env.apps.values():
             app.register_deferred_triggers()
@@ -193,18 +195,23 @@ def run(seed: int, params: dict, replay: dict | None = None) -> dict:
                 trace.append(("status", i, req, who, exp))
             elif r < 0.40:
                 ti = rng.randrange(2)
-                kind = rng.choice(["existing", "task", "call", "page", "count", "filter"])
+                kind = rng.choice(["existing", "existing", "task", "call", "page", "count", "filter"])
                 sts = rng.sample(ALL, rng.randint(1, 3)) if rng.random() < 0.7 else None
                 stenum = [InvocationStatus[s] for s in sts] if sts else None
                 if kind == "existing":
-                    ka = rng.choice([None, {"a": rng.randint(0, 1)}, {"a": rng.randint(0, 1), "b": rng.randint(0, 1)}]) if ti == 0 else None
+                    # task 0 has key arguments (a, b): its invocations are in the argument index
+                    ka = rng.choice([None, {"a": rng.randint(0, 1)}, {"b": rng.randint(0, 1)}, {"a": rng.randint(0, 1), "b": rng.randint(0, 1)}, {"a": rng.randint(0, 1), "b": rng.randint(0, 1)}]) if ti == 0 else None
+                    if ka and len(ka) == 2:
+                        bump("probe.two_key_argument_query")
+                    unknown_args = bool(ka) and any(meta[i]["task"] == ti and meta[i]["args"] is None for i in cand)  # launched by a trigger
+                    want_e = None if unknown_args else sorted({f"#{i}" for i in cand if meta[i]["task"] == ti and (not ka or all(meta[i]["args"][0 if k_ == "a" else 1] == v_ for k_, v_ in ka.items())) and (not sts or meta[i]["status"][0] in sts)}, key=repr)
 
                     def q(st: str, app: Any) -> Any:
                         t = tasks[st][ti]
                         ser = {k: app.client_data_store.serialize(v) for k, v in ka.items()} if ka else None
                         return app.orchestrator.get_existing_invocations(t, ser, stenum)
 
-                    both("get_existing_invocations", q, ordered=False)
+                    both("get_existing_invocations", q, ordered=False, model=want_e)
                 elif kind == "task":
                     want = {f"#{i}" for i in cand if meta[i]["task"] == ti}
                     both("get_task_invocation_ids", lambda st, app: app.orchestrator.get_task_invocation_ids(tasks[st][ti].task_id), ordered=False, model=sorted(want, key=repr))
